@@ -209,7 +209,18 @@ var c19Held []c19held
 // c19Read reads ops[i:j) from d, whose first byte sits at absolute offset abs0
 // of the message; with probability it carves sub-ranges into nested slice
 // decoders. Returns the first disagreement with the model.
-func c19Read(rt *rapid.T, d *ofbase.Decoder, ops []c19op, i, j, abs0, depth int, plan *[]string) *c19fail {
+func c19Read(rt *rapid.T, d *ofbase.Decoder, ops []c19op, i, j, abs0, depth int, plan *[]string) (fail *c19fail) {
+	var deferred []func() *c19fail
+	defer func() {
+		if fail != nil {
+			return
+		}
+		for _, f := range deferred {
+			if fail = f(); fail != nil {
+				return
+			}
+		}
+	}()
 	k := i
 	for k < j {
 		// carve ops[k:l) into a sliced decoder?
@@ -238,16 +249,34 @@ func c19Read(rt *rapid.T, d *ofbase.Decoder, ops []c19op, i, j, abs0, depth int,
 			if d.Offset() != before+nbytes {
 				return &c19fail{"C19|SliceDecoder|parent-advance", fmt.Sprintf("parent advanced by %d, want %d", d.Offset()-before, nbytes)}
 			}
-			if f := c19Read(rt, sub, ops, k, l, wantBase, depth+1, plan); f != nil {
+			kk := k // the loop variable moves on before a kept window is read
+			readWindow := func() *c19fail {
+				if f := c19Read(rt, sub, ops, kk, l, wantBase, depth+1, plan); f != nil {
+					return f
+				}
+				if sub.Length() != -padOutside {
+					return &c19fail{"C19|SliceDecoder|leftover", fmt.Sprintf("%d bytes left in the slice after reading its ops (want %d)", sub.Length(), -padOutside)}
+				}
+				// nothing decodes as a header from an exhausted window, whatever lies behind it in the parent
+				var h ofbase.Header
+				if err := h.Decode(sub); err == nil {
+					return &c19fail{"C19|Header.Decode|short-accepted", fmt.Sprintf("a window with %d bytes left (parent has more behind it) gave a header %+v", sub.Length(), h)}
+				}
+				return nil
+			}
+			if rapid.Bool().Draw(rt, "window_read_later") {
+				// a caller that first cuts a list into its elements and decodes them afterwards: the window is
+				// kept while the parent goes on (and hands out further windows), and read at the end
+				k0, l0 := k, l
+				later := readWindow
+				readWindow = func() *c19fail { return nil }
+				deferred = append(deferred, func() *c19fail {
+					*plan = append(*plan, fmt.Sprintf("now reading the window of ops %d..%d", k0, l0))
+					return later()
+				})
+			}
+			if f := readWindow(); f != nil {
 				return f
-			}
-			if sub.Length() != -padOutside {
-				return &c19fail{"C19|SliceDecoder|leftover", fmt.Sprintf("%d bytes left in the slice after reading its ops (want %d)", sub.Length(), -padOutside)}
-			}
-			// nothing decodes as a header from an exhausted window, whatever lies behind it in the parent
-			var h ofbase.Header
-			if err := h.Decode(sub); err == nil {
-				return &c19fail{"C19|Header.Decode|short-accepted", fmt.Sprintf("a window with %d bytes left (parent has more behind it) gave a header %+v", sub.Length(), h)}
 			}
 			if padOutside > 0 {
 				*plan = append(*plan, fmt.Sprintf("parent skips %d pad", padOutside))
